@@ -703,8 +703,8 @@ class CausalGraph(HasIdentifier, HasMetadata, CanDictSerialize, CanDictDeseriali
         if not isinstance(destination, Node):
             destination = self._NodeCls.identifier_from(destination)
 
-        # check that the source is not equal to destination
-        if source == destination:
+        # check that the source is not equal to destination (compare identifiers: a node object never equals a plain identifier)
+        if self._NodeCls.identifier_from(source) == self._NodeCls.identifier_from(destination):
             raise CausalGraphErrors.CyclicConnectionError(
                 f'Adding an edge from {source} to {destination} would create a self-loop, no matter the edge type. '
                 f'This is currently not supported.'
